@@ -619,6 +619,22 @@ pub fn op_conv(p: &Pointer) -> String {
         ck("cow_buf", c2.as_str() == text);
         ck("cow_buf", c2.into_owned().as_str() == text);
     }
+    {
+        // `ToOwned::clone_into` / `Cow::clone_from` into targets that already hold other text (longer, shorter, empty)
+        let longer = format!("{}/zzzz/yyyy", text);
+        for (name, init) in [("clone_into_longer", longer.as_str()), ("clone_into_shorter", ""), ("clone_into_slash", "/"), ("clone_into_same", text)] {
+            if let Ok(mut target) = PointerBuf::parse(init.to_string()) {
+                p.clone_into(&mut target);
+                ck(name, target.as_str() == text);
+                let mut c: Cow<'static, Pointer> = Cow::Owned(PointerBuf::parse(init.to_string()).expect("valid"));
+                c.clone_from(&Cow::Owned(p.to_buf()));
+                ck("cow_clone_from", c.as_str() == text);
+                let mut b2 = PointerBuf::parse(init.to_string()).expect("valid");
+                b2.clone_from(&p.to_buf());
+                ck("buf_clone_from", b2.as_str() == text);
+            }
+        }
+    }
     let len = text.len();
     for (name, cap) in [("box_len", len), ("box_len1", len + 1), ("box_2len7", 2 * len + 7), ("box_4len64", 4 * len + 64)] {
         let mut st = String::with_capacity(cap);
